@@ -296,7 +296,7 @@ func c19Child(args []string) int {
 		return raceChild(args[1], args[2], args[3])
 	case "history":
 		seed, _ := strconv.ParseUint(args[1], 10, 64)
-		res := historyDigests(seed, 1)
+		res := historyDigests(seed, 1, 1) // a fresh process starts with a DIFFERENT order than the parent
 		b, _ := json.Marshal(res[0])
 		os.WriteFile(args[2], b, 0o644)
 		return 0
@@ -471,11 +471,12 @@ func argText(s *shared, o opSpec, which int) string {
 
 // historyDigests runs, per ecosystem, one fixed multiset of operations in `orders` shuffled orders on
 // ONE set of long-lived shared objects and returns per-order maps opIndex -> result digest.
-func historyDigests(seed uint64, orders int) []map[string]string {
+func historyDigests(seed uint64, orders int, first int) []map[string]string {
 	out := make([]map[string]string, orders)
 	for o := range out {
 		out[o] = map[string]string{}
 	}
+	crossSchemeHistory(seed, out, first)
 	for _, name := range eco.Names() {
 		r := core.Rand(seed, "C19", "history", name)
 		spec := buildShared(name, r, 48, 24)
@@ -488,8 +489,8 @@ func historyDigests(seed uint64, orders int) []map[string]string {
 			ops[k] = sh.randOp(r)
 		}
 		for o := 0; o < orders; o++ {
-			perm := core.Rand(seed, "C19", "order", name, itoa(o)).Perm(len(ops))
-			if o == 0 {
+			perm := core.Rand(seed, "C19", "order", name, itoa(o+first)).Perm(len(ops))
+			if o+first == 0 {
 				perm = identity(len(ops))
 			}
 			for _, k := range perm {
@@ -498,6 +499,41 @@ func historyDigests(seed uint64, orders int) []map[string]string {
 		}
 	}
 	return out
+}
+
+// crossSchemeHistory evaluates the SAME constraint texts under all 11 VERS schemes, in an order that
+// depends on the order index: a result that depends on which scheme (or which other range) was evaluated
+// earlier in the process - e.g. a cache keyed without the scheme - differs between the parent's first
+// order and the fresh child's first order.
+func crossSchemeHistory(seed uint64, out []map[string]string, first int) {
+	cands := []string{"1.0.0-1", "1.0.0", "2.0.0-1", "2.0.0", "1.0.0-alpha", "1.0.0-rc.1", "1.0a1", "1.0.post1", "1.0-1", "1.10", "1.9", "0.9", "1.0.0-beta", "1.0",
+		"1.0.0-10", "1.0.0-2", "1.0.0-x", "3.0.0", "1.0_p1", "1.0~rc1", "1.0.0.1", "1.0.0-a.b", "v1.0.0", "1.0-sp", "1.0.0-0", "10", "9"}
+	type cop struct{ text, probe string }
+	var ops []cop
+	r := core.Rand(seed, "C19", "cross")
+	for k := 0; k < 60; k++ {
+		a, b := cands[r.IntN(len(cands))], cands[r.IntN(len(cands))]
+		body := gen.Pick(r, ">=", ">", "=", "!=") + a + "|" + gen.Pick(r, "<", "<=", "!=", ">=") + b
+		if r.IntN(3) == 0 {
+			body += "|" + gen.Pick(r, ">=", "<", "!=") + cands[r.IntN(len(cands))]
+		}
+		probes := []string{cands[r.IntN(len(cands))], cands[r.IntN(len(cands))], "3.0.0", "2.0.0", "0.5"}
+		for _, sc := range Schemes {
+			for _, p := range probes {
+				ops = append(ops, cop{"vers:" + sc + "/" + body, p})
+			}
+		}
+	}
+	for o := range out {
+		perm := core.Rand(seed, "C19", "crossorder", itoa(o+first)).Perm(len(ops))
+		if o+first == 0 {
+			perm = identity(len(ops))
+		}
+		for _, k := range perm {
+			ok, err, pn := eco.SafeVersContains(ops[k].text, ops[k].probe)
+			out[o]["cross#"+itoa(k)] = "VersContains|" + ops[k].text + "|" + ops[k].probe + "=>" + strconv.FormatBool(ok) + ":" + strconv.FormatBool(err == nil) + ":" + strconv.FormatBool(pn == nil)
+		}
+	}
 }
 
 // ---------------------------------------------------------------------------------------------
@@ -623,7 +659,7 @@ func runC19(c *core.Ctx, ck *Check) {
 	}
 
 	// (2) history independence: 8 shuffled orders here, once in a fresh process
-	hd := historyDigests(c.Seed, 8)
+	hd := historyDigests(c.Seed, 8, 0)
 	for o := 1; o < len(hd); o++ {
 		bad := 0
 		for k, v := range hd[0] {
@@ -739,6 +775,30 @@ func runC19(c *core.Ctx, ck *Check) {
 
 // evalC19 re-runs the sequential purity/history monitors for one ecosystem, or the race storm when op == "race".
 func evalC19(c *core.Ctx, e *eco.Eco, op string, args []string) []core.Violation {
+	if op == "history" {
+		// re-run the history differential: two orders here, one different order in a fresh process
+		var out []core.Violation
+		hd := historyDigests(c.Seed, 2, 0)
+		for k, v := range hd[0] {
+			if hd[1][k] != v && len(out) < 3 {
+				out = append(out, core.Violation{Eco: strings.SplitN(k, "#", 2)[0], Op: "history", Args: []string{k, "1"}, Rule: "result-depends-on-call-history", Got: hd[1][k], Want: v})
+			}
+		}
+		self, _ := os.Executable()
+		tmp := filepath.Join(os.TempDir(), "verif-c19-replay-"+itoa(os.Getpid())+".json")
+		defer os.Remove(tmp)
+		if err := exec.Command(self, "C19", "--child", "history", strconv.FormatUint(c.Seed, 10), tmp).Run(); err == nil {
+			var fresh map[string]string
+			if b, err := os.ReadFile(tmp); err == nil && json.Unmarshal(b, &fresh) == nil {
+				for k, v := range hd[0] {
+					if fresh[k] != v && len(out) < 6 {
+						out = append(out, core.Violation{Eco: strings.SplitN(k, "#", 2)[0], Op: "history", Args: []string{k, "fresh-process"}, Rule: "result-differs-in-fresh-process", Got: fresh[k], Want: v})
+					}
+				}
+			}
+		}
+		return out
+	}
 	if e == nil {
 		return nil
 	}
